@@ -417,6 +417,21 @@ func runDecoderStream(c *core.Case) {
 	if hostileFirst {
 		emitTail()
 	}
+	if c.Index%4 == 3 {
+		// one long valid value whose first buffer-full is plain ASCII without a backslash and
+		// whose escapes, quotes and non-ASCII characters only come later: framing hints computed
+		// on the first read must not be applied to the bytes read afterwards
+		sb.WriteString("[\"")
+		for sb.Len() < target {
+			sb.WriteByte(byte('a' + r.Intn(26)))
+		}
+		esc := []string{"\\n", "\\\"", "\\\\", "é", "\\u00e9", "x"}
+		for n := r.Range(5, 2000); n > 0; n-- {
+			sb.WriteString(esc[r.Intn(len(esc))])
+		}
+		sb.WriteString("\",{\"a\\\"b\":1}]")
+		sb.WriteString(core.Pick(r, seps))
+	}
 	for sb.Len() < target {
 		sb.WriteString(cleanValue(r))
 		sb.WriteString(core.Pick(r, seps))
